@@ -7,7 +7,7 @@ from . import common, u_asm
 
 NAME = "U-shift16"
 TOOL = "verus"
-PROPS = ["C13", "C01", "C16"]
+PROPS = ["C13", "C01", "C16", "C17"]
 RLIMIT = 150
 TRUSTED = ["verus 0.2026.09.13 + z3", "asm()/sasm() contracts as proved in U-asm (same header text)", "A-isa"]
 
@@ -20,6 +20,13 @@ pub open spec fn shift16_ok(g: &GeneratorState, left: ExprType, right: ExprType)
             ExprType::AbsoluteX(n) => g.compiler_state.declared(n@) && g.compiler_state.var(n@).var_type == VariableType::ShortPtr && ident(n@) && g.compiler_state.var(n@).size < 0x100_0000,
             _ => false,
         }
+}
+pub open spec fn wide16(g: &GeneratorState, left: ExprType) -> bool {
+    match left {
+        ExprType::Absolute(n, eb, _) => !eb && g.compiler_state.var(n@).var_type == VariableType::Short,
+        ExprType::AbsoluteX(n) => g.compiler_state.var(n@).var_type == VariableType::ShortPtr,
+        _ => false,
+    }
 }
 pub open spec fn same_env(a: &GeneratorState, b: &GeneratorState) -> bool { a.compiler_state == b.compiler_state && a.current_function == b.current_function && a.bankswitching_scheme == b.bankswitching_scheme }
 """
@@ -44,7 +51,7 @@ def build(repo):
     sh.set_header("""#[verifier::exec_allows_no_decreases_clause]
     pub(crate) fn generate_shift_16bits(&mut self, left: &ExprType, op: &Operation, right: &ExprType, pos: usize) -> (res: Result<ExprType, Error>)
         requires shift16_ok(old(self), *left, *right), //@ C13,C16:shift16-operand-is-16bit-memory
-        ensures same_env(old(self), final(self)),
+        ensures same_env(old(self), final(self)), res is Ok ==> res->Ok_0 is Nothing,
 """, expect_sig="fn generate_shift_16bits(&mut self, left: &ExprType, op: &Operation, right: &ExprType, pos: usize) -> Result<ExprType, Error>")
     sh.loop_spec(1, r"^for _ in 0\.\.\*value$", """
                 invariant same_env(old(self), self), shift16_ok(old(self), *left, *right), v == old(self).compiler_state.var(match *left { ExprType::Absolute(n, _, _) => n@, ExprType::AbsoluteX(n) => n@, _ => Seq::<char>::empty() }),
@@ -63,15 +70,19 @@ def build(repo):
     blk = gs.cut_span(ifs, gs.if_chain_end(ifs), "generate_expr(): dispatch to generate_shift_16bits in the `<<=` / `>>=` arm (R8)")
     cuts.append(blk)
     dispatch = """
-    // R8: the dispatch block, verbatim; `left`, `right`, `op`, `pos`, `high_byte` are its free variables.  A return value of Ok(Nothing)
+    // R8: the dispatch block, verbatim; `left`, `right`, `op`, `pos`, `high_byte` are its free variables.  A return value of Ok(Label(..))
     // after the block stands for falling through to the general path (generate_shift + generate_assign), which is not part of this unit.
     pub fn shift_assign_dispatch(&mut self, left: ExprType, right: ExprType, op: &Operation, pos: usize, high_byte: bool) -> (res: Result<ExprType, Error>)
         requires names_ok(left), (left is Absolute || left is AbsoluteX || left is AbsoluteY) ==> var_of(old(self), left).size < 0x100_0000,
             // `left` came out of generate_expr, which looked the variable up (U-subscript: variable_or_error)
             match left { ExprType::Absolute(n, _, _) => old(self).compiler_state.declared(n@), ExprType::AbsoluteX(n) => old(self).compiler_state.declared(n@), ExprType::AbsoluteY(n) => old(self).compiler_state.declared(n@), _ => true },
+        ensures
+            // from the property: `s <<= k` / `s >>= k` on a 16-bit object (a short, an element of an array of shorts reached through X), wherever it lives, is never handed
+            // to the general path, which shifts and stores one byte (the fall-through is the Label result; generate_shift_16bits returns Nothing)
+            (!high_byte && wide16(old(self), left) && right is Immediate && right->Immediate_0 < 8) ==> !(res is Ok && res->Ok_0 is Label), //@ C01,C17:shift-assign-of-a-16-bit-object-takes-the-16-bit-path
     {
 %s
-        Ok(ExprType::Nothing)
+        Ok(ExprType::Label(String::new()))
     }
 """ % blk.text
     # tag the stub's preconditions: in this unit they are obligations at the call sites
